@@ -114,6 +114,12 @@ def encode_p8(cart, style=None):
     style = style or {}
     out = [P8_HEADER, b'version %d\n' % cart['version'], b'__lua__\n']
     code = cart['code']
+    if any(c >= 0x80 for c in code):
+        # P8SCII glyphs are stored as Unicode in a .p8 file.  The table is
+        # picotool's own (its bijectivity is property C15, not decided here);
+        # it is used to *construct inputs* only, never as an oracle.
+        from pico8.lua import lua as _lua
+        code = _lua.p8scii_to_unicode(code).encode('utf-8')
     out.append(code)
     if not code.endswith(b'\n'):
         out.append(b'\n')
@@ -257,6 +263,12 @@ def decode_p8(data):
             raise RefCodecError('label: %d pixels' % len(pix))
         label = {'p8': bytes(pix)}
     code = b'\n'.join(sections.get('lua', []))
+    if any(c >= 0x80 for c in code):
+        try:
+            from pico8.lua import lua as _lua
+            code = _lua.unicode_to_p8scii(code.decode('utf-8'))
+        except Exception as e:
+            raise RefCodecError('code is not valid P8SCII-as-Unicode: %s' % e)
     # `lines` came from split('\n'): the section body ends with the newline
     # that precedes the next section marker
     if sections.get('lua'):
